@@ -182,7 +182,7 @@ def run(prog, rep, tier):
             rep.bad("TOL.guard", fwhere(f, raises[0].node), "the ratio-sum guard is reached only past another check (%s): vectors that fail it get a different exception "
                     "(or none) instead of the ValueError" % "; ".join(pred_fmt(npred(c, p_))[:60] for c, p_ in raises[0].path[:-1]))
         else:
-            rep.bad("TOL.guard", fwhere(f), "expected exactly one ValueError guard on the ratio sum, found %d" % len(raises))
+            rep.bad_form("TOL.guard", fwhere(f), "expected exactly one ValueError guard on the ratio sum, found %d" % len(raises))
     else:
         r = raises[0]
         kind, val = tolerance_of(r.path[0][0] if r.path[0][1] is True else ("unop", "not", r.path[0][0]))
@@ -299,7 +299,7 @@ def run(prog, rep, tier):
         rep.unk("FLOW.append", fwhere(f, inner["node"]), "the fold loop appends nothing: how the slices reach the folds is not read")
         return
     if len(apps) != 1:
-        rep.bad("FLOW.append", fwhere(f, inner["node"]), "each fold iteration must append exactly one slice (found %d appends)" % len(apps))
+        rep.bad_form("FLOW.append", fwhere(f, inner["node"]), "each fold iteration must append exactly one slice (found %d appends)" % len(apps))
         return
     ap = apps[0]
     val = ap.args[0]
@@ -377,7 +377,7 @@ def run(prog, rep, tier):
         rem_is_X, C = False, None
         rem, bnd = Y, X
         if bnd[2][2] == NONE_ or rem[2][2] != NONE_:
-            rep.bad("LAST.branch", fwhere(f, ap.node), "expected bounded slices inside the loop and one open-ended remainder slice after it")
+            rep.bad_form("LAST.branch", fwhere(f, ap.node), "expected bounded slices inside the loop and one open-ended remainder slice after it")
             return
         short = peeled["short"]
         if short == 1:
@@ -386,17 +386,17 @@ def run(prog, rep, tier):
             rep.bad("LAST.exact", fwhere(f, inner["node"]), "the loop leaves out %s fold(s) at the end, the remainder is appended once: fold(s) in between stay empty or are served twice" % short)
         vals = "peeled"
     elif val[0] != "phi":
-        rep.bad("LAST.branch", fwhere(f, ap.node), "no separate remainder slice for the last fold: %s" % fmt(val)[:100])
+        rep.bad_form("LAST.branch", fwhere(f, ap.node), "no separate remainder slice for the last fold: %s" % fmt(val)[:100])
         return
     else:
         C, X, Y = val[1], open_end(val[2]), open_end(val[3])
         if not (is_slice(X) and is_slice(Y)):
-            rep.bad("CONTIG.slices", fwhere(f, ap.node), "fold contents are not slices of the shuffled sample")
+            rep.bad_form("CONTIG.slices", fwhere(f, ap.node), "fold contents are not slices of the shuffled sample")
             return
         rem_is_X = X[2][2] == NONE_
         rem, bnd = (X, Y) if rem_is_X else (Y, X)
         if bnd[2][2] == NONE_ or rem[2][2] != NONE_:
-            rep.bad("LAST.branch", fwhere(f, ap.node), "expected one bounded slice and one open-ended remainder slice")
+            rep.bad_form("LAST.branch", fwhere(f, ap.node), "expected one bounded slice and one open-ended remainder slice")
             return
         bcond = npred(C, not rem_is_X)
         vals, why = truth_by_distance(bcond, idx, L)
